@@ -10,27 +10,30 @@ open Ofx Ofx.Agg Ofx.Generated Ofx.Types Ofx.Spec.Wire
 /-- **C13 for the generated schema: a held child is written under its tag and read back.** -/
 theorem C13_generated_child (ci : Nat) (fields : List (Str × Node)) (items : List Node)
     (hv : Valid genEnv.S genEnv.cv escapeCdata (typesDomWire genEnv.S.enums) (.agg ci fields items))
+    (hplain : ∀ c, genEnv.S.cls? ci = some c → c.groom = none)
     (n : Str) (w : Node) (hm : (n, w) ∈ fields) (hw : w ≠ .val .none) :
     ∃ tag x tl children, toEtree genEnv.S genEnv.cv (.agg ci fields items) = .ok (.node tag x tl children) ∧
       fromEtree genEnv.S genEnv.cv (mapText escapeCdata (.node tag x tl children)) = .ok (.agg ci fields items) ∧
       ∃ ch ∈ children, lower ch.tag = n ∧ '.' ∉ ch.tag :=
   C13_child_written_and_read genEnv.S genEnv.cv escapeCdata _ (typesConv_laws_wire _)
-    (typesConv_none genEnv.S.enums) ci fields items hv n w hm hw
+    (typesConv_none genEnv.S.enums) ci fields items hv hplain n w hm hw
 
 /-- **C13 for the generated schema: a repeated member is written under a repeated attribute's tag and read back.** -/
 theorem C13_generated_member (ci : Nat) (fields : List (Str × Node)) (items : List Node)
     (hv : Valid genEnv.S genEnv.cv escapeCdata (typesDomWire genEnv.S.enums) (.agg ci fields items))
-    (m : Node) (hm : m ∈ items) :
+    (hplain : ∀ c, genEnv.S.cls? ci = some c → c.groom = none) (m : Node) (hm : m ∈ items) :
     ∃ c tag x tl children, genEnv.S.cls? ci = some c ∧
       toEtree genEnv.S genEnv.cv (.agg ci fields items) = .ok (.node tag x tl children) ∧
       fromEtree genEnv.S genEnv.cv (mapText escapeCdata (.node tag x tl children)) = .ok (.agg ci fields items) ∧
       ∃ ch ∈ children, isListMember c (lower ch.tag) = true ∧ '.' ∉ ch.tag :=
-  C13_member_written_and_read genEnv.S genEnv.cv escapeCdata _ (typesConv_laws_wire _) ci fields items hv m hm
+  C13_member_written_and_read genEnv.S genEnv.cv escapeCdata _ (typesConv_laws_wire _) ci fields items hv hplain m hm
 
 /-- non-vacuity: `exStatus` (valid, Gen/C01) holds `code` and `severity` -/
 example : ∃ tag x tl children, toEtree genEnv.S genEnv.cv exStatus = .ok (.node tag x tl children) ∧
     fromEtree genEnv.S genEnv.cv (mapText escapeCdata (.node tag x tl children)) = .ok exStatus ∧
     ∃ ch ∈ children, lower ch.tag = "code".toList ∧ '.' ∉ ch.tag :=
-  C13_generated_child 331 _ _ exStatus_valid "code".toList (.val (.int 0)) (by simp) (by simp)
+  C13_generated_child 331 _ _ exStatus_valid (fun c hc => by
+    have : c = statusCls := by rw [show genEnv.S.cls? 331 = some statusCls from status_cls] at hc; injection hc with hc; exact hc.symm
+    subst this; rfl) "code".toList (.val (.int 0)) (by simp) (by simp)
 
 end Ofx.Gen
